@@ -34,7 +34,7 @@ fn parse_if(it: &mut LexIterator) -> ParseResult {
     let el = if it.peek_if(&|lex| lex.token == Token::Else) {
         it.parse_if(&Token::Else, &parse_expr_or_stmt, "if else branch", start)?
     } else if it.peek_if_followed_by(&Token::NL, &Token::Else) {
-        it.eat(&Token::NL, "if else branch")?;
+        it.eat_while(&Token::NL);
         it.parse_if(&Token::Else, &parse_expr_or_stmt, "if else branch", start)?
     } else {
         None
@@ -55,6 +55,7 @@ fn parse_match(it: &mut LexIterator) -> ParseResult {
     it.eat(&Token::Match, "match")?;
     let cond = it.parse(&parse_expression, "match", start)?;
     it.eat(&Token::NL, "match")?;
+    it.eat_while(&Token::NL);
     let cases = it.parse_vec(&parse_match_cases, "match", start)?;
     let end = cases.last().cloned().map_or(cond.pos, |case| case.pos);
 
@@ -64,10 +65,11 @@ fn parse_match(it: &mut LexIterator) -> ParseResult {
 
 pub fn parse_match_cases(it: &mut LexIterator) -> ParseResult<Vec<AST>> {
     let start = it.eat(&Token::Indent, "match cases")?;
+    it.eat_while(&Token::NL);
     let mut cases = vec![];
     it.peek_while_not_token(&Token::Dedent, &mut |it, _| {
         cases.push(*it.parse(&parse_match_case, "match case", start)?);
-        it.eat_if(&Token::NL);
+        it.eat_while(&Token::NL);
         Ok(())
     })?;
 
